@@ -357,8 +357,80 @@ def item_cl(it):
   return res.r
 
 
+REPLAY_AD = '''
+sys.path.insert(0, '/verif')
+from specs.cl_harness import run_adapter_harness
+from pymtl3 import Bits16
+from pymtl3.stdlib.queues.queues import NormalQueueRTL, PipeQueueRTL, BypassQueueRTL
+kind, n = %(kind)r, %(n)d
+eo, do, vals = %(eo)r, %(do)r, %(vals)r
+cls = {'normal': NormalQueueRTL, 'pipe': PipeQueueRTL, 'bypass': BypassQueueRTL}[kind]
+acc, dl = run_adapter_harness(cls, n, eo, do, [Bits16(v) for v in vals], Bits16)
+want = [vals[t] for t in acc]
+got = [int(x) for x in dl]
+if got != want[:len(got)] or len(got) > len(want):
+  reproduced(f"{kind} RTL queue n={n} behind the CL-to-RTL adapter, producer reusing one message object, offers eo={eo} do={do}: accepted {[hex(v) for v in want]}, delivered {[hex(v) for v in got]}")
+'''
+
+
+def item_adapter(it):
+  """a cycle-level producer that reuses ONE message object feeds an RTL queue through the library's RecvCL2SendRTL
+  adapter (fork mode; offers and messages symbolic): the delivered messages are a prefix of the accepted ones, in order"""
+  cover.start()
+  from symx import pymtl as sp
+  from symx.forkx import ForkExplorer
+  from specs.cl_harness import run_adapter_harness
+  from pymtl3.stdlib.queues.queues import NormalQueueRTL, PipeQueueRTL, BypassQueueRTL
+  kind, n, k = it['kind'], it['n'], it['k']
+  name = f"adapter/{kind}/n={n}/k={k}"
+  Bits = sp.setup()
+  from pymtl3 import Bits16
+  cls = {'normal': NormalQueueRTL, 'pipe': PipeQueueRTL, 'bypass': BypassQueueRTL}[kind]
+  eos = [core.fresh(f'eo{t}', 1) for t in range(k)]
+  dos = [core.fresh(f'do{t}', 1) for t in range(k)]
+  msgs = [sp.sym_bits(16, f'msg{t}') for t in range(k)]
+
+  def leaf(pc, out, exc):
+    rec = dict(obligations=1, discharged=0, violations=[], inconclusive=[], decisions=len(pc))
+    def viol(what, model=None):
+      if model is None:
+        sv = z3.Solver(); sv.add(*pc); assert sv.check() == z3.sat; model = sv.model()
+      gg = lambda x: model.eval(x, model_completion=True).as_long()
+      rec['violations'].append(dict(key=f"adapter:{cls.__name__}", what=f"{name}: {what}",
+                                    replay=REPLAY_AD % dict(kind=kind, n=n, eo=[gg(v) for _, v in eos], do=[gg(v) for _, v in dos], vals=[gg(v) for _, v in msgs])))
+    if exc is not None:
+      viol(f"simulation raised {type(exc).__name__}: {exc}"); return rec
+    acc, dl = out
+    if len(dl) > len(acc): viol(f"{len(dl)} messages delivered, {len(acc)} accepted"); return rec
+    ok = True
+    for i, x in enumerate(dl):
+      rec['obligations'] += 1
+      v, mm = prove(pc, sp.bits_bv(x) == msgs[acc[i]][1])
+      if v == 'unsat': rec['discharged'] += 1
+      elif v == 'sat': viol(f"delivered message #{i} is not the {i}-th accepted message (offer of cycle {acc[i]})", mm); ok = False; break
+      else: rec['inconclusive'].append(f"solver unknown {mm}")
+    if ok: rec['discharged'] += 1
+    rec['sample'] = f"{name}: {len(acc)} accepted, {len(dl)} delivered"
+    return rec
+
+  fx = ForkExplorer(leaf=leaf, max_paths=40000)
+  recs = fx.run(lambda: run_adapter_harness(cls, n, [e for e, _ in eos], [d for d, _ in dos], [b for b, _ in msgs], Bits16))
+  res = Result(name)
+  for r in recs:
+    if 'error' in r: res['inconclusive'].append(r['error']); continue
+    res['states'] += 1; res['transitions'] += r['decisions']
+    res['obligations'] += r['obligations']; res['discharged'] += r['discharged']
+    res['inconclusive'] += r['inconclusive']
+    if r['violations'] and len(res['violations']) < 3: res['violations'] += r['violations']
+    if not res['samples'] and 'sample' in r: res['samples'].append(r['sample'])
+  res['distinct'] = [f"{name}#{i}" for i in range(res['states'])]
+  res['stats'] = {'solver_checks': sum(r.get('_stats', {}).get('solver_checks', 0) for r in recs),
+                  'solver_s': round(sum(r.get('_stats', {}).get('solver_s', 0) for r in recs), 3), 'paths': len(recs)}
+  return res.r
+
+
 def dispatch(it):
-  return {'bmc': item_bmc, 'cl': item_cl, 'step': item_step}[it['kind_']](it)
+  return {'bmc': item_bmc, 'cl': item_cl, 'step': item_step, 'adapter': item_adapter}[it['kind_']](it)
 
 
 def main():
@@ -384,6 +456,8 @@ def main():
     for n in ([1, 2] if tier == 'quick' else [1, 2, 3]):
       for order in ((None,) if kind != 'normal' else ('enq_first', 'deq_first')):      # NormalQueueCL declares no order between enq and deq: both caller orders
         items.append(dict(kind_='cl', kind=kind, n=n, mt='16', k=2 * n + 1 if n < 3 else 6, order=order))
+  for kind, n, k in ((('normal', 2, 5), ('bypass', 1, 4), ('pipe', 2, 5)) if tier == 'quick' else (('normal', 2, 6), ('normal', 3, 7), ('bypass', 1, 5), ('bypass', 2, 6), ('pipe', 1, 5), ('pipe', 2, 6))):
+    items.append(dict(kind_='adapter', kind=kind, n=n, k=k, mt='16'))
   items.sort(key=lambda it: -it['k'] * it['n'] * (50 if it['kind_'] == 'cl' else 1))
   for it, r in pmap(dispatch, items, item_timeout=900 if tier == 'quick' else 3000):
     chk.absorb(it, r)
@@ -394,7 +468,7 @@ def main():
   chk.assumptions = ['environment offers nothing while reset is high', 'en/rdy callers obey the protocol: en only when the (specified) rdy is high',
                      'scheduler = DynamicSchedulePass']
   chk.finish(rule="one BMC item per (family, kind, capacity, message type): all offers/messages/resets of all cycles symbolic, one obligation per outer path = "
-                  "conjunction over cycles of (rdy/val/msg/count == abstract FIFO)")
+                  "conjunction over cycles of (rdy/val/msg/count == abstract FIFO); adapter items: a CL producer reusing one message object in front of an RTL queue through RecvCL2SendRTL, delivered == prefix of accepted")
 
 
 if __name__ == '__main__':
